@@ -54,7 +54,8 @@ class RatFuncSegment:
             numerator *= x
             numerator += float(numerator_coeff)
 
-        denominator = 0.0
+        # the denominator is 1 if no COMPU-DENOMINATOR is specified
+        denominator = 0.0 if self.denominator_coeffs else 1.0
         for denominator_coeff in reversed(self.denominator_coeffs):
             denominator *= x
             denominator += float(denominator_coeff)
